@@ -15,6 +15,7 @@ fn main() {
         let file = std::fs::File::open(&args[3]).expect("replay file");
         let mut ex: Box<dyn Executor> = match stream {
             "time" => Box::new(streams::time::TimeExec),
+            "wire" => Box::new(streams::wire::WireExec),
             _ => panic!("unknown stream"),
         };
         for line in std::io::BufReader::new(file).lines() {
@@ -53,6 +54,7 @@ fn main() {
     let mut out = Out::new(&dir, &stream);
     match stream.as_str() {
         "time" => streams::time::generate(&mut out, &mut rng, thorough),
+        "wire" => streams::wire::generate(&mut out, &mut rng, thorough),
         _ => panic!("unknown stream {stream}"),
     }
     out.finish();
